@@ -74,6 +74,34 @@ Section Heap.
     let h1 := write h p (mutate saved) in
     let r := observe h1 in
     (write h1 p saved, r).
+
+  (** A Spectrum (a numpy masked array) is a PAIR of buffers: the data and the mask.  The arithmetic operators generated in
+      Spectrum_mod.py ( __add__, __radd__, __mul__, ... ) compute
+          newdata = self.data.__op__(other)          -- always a new buffer
+          newmask = self.mask                        -- the operand's OWN mask buffer (when the other operand has none)
+          return Spectrum.__new__(cls, newdata, newmask, ...)      -- the constructor: numpy.ma.masked_array(data, mask=mask, copy=copy)
+      The constructor's default copy=True copies BOTH buffers; with copy=False numpy.ma keeps both, so the result's mask is the
+      operand's mask (the data is the temporary, which nobody else holds). *)
+  Record spectrum := { s_data : nat; s_mask : nat }.
+  Variable op : buffer -> buffer.                  (* the elementwise arithmetic on the data buffer *)
+  Record arith_protocol := { ctor_copies : bool }. (* the constructor call of the operator template copies its inputs *)
+  Definition arith_copy_protocol := {| ctor_copies := true |}.
+  Definition arith_nocopy_protocol := {| ctor_copies := false |}.
+
+  Definition arith_copy (h : heap) (s : spectrum) : heap * spectrum :=
+    let (h1, nd) := alloc h (op (read h (s_data s))) in
+    let (h2, qd) := alloc h1 (read h1 nd) in
+    let (h3, qm) := alloc h2 (read h2 (s_mask s)) in
+    (h3, {| s_data := qd; s_mask := qm |}).
+  Definition arith_nocopy (h : heap) (s : spectrum) : heap * spectrum :=
+    let (h1, nd) := alloc h (op (read h (s_data s))) in
+    (h1, {| s_data := nd; s_mask := s_mask s |}).
+  Definition arith (pr : arith_protocol) (h : heap) (s : spectrum) : heap * spectrum :=
+    if ctor_copies pr then arith_copy h s else arith_nocopy h s.
+
+  (** what a later computation on a spectrum sees: any function of its two buffers (sum, S, ll, ...) *)
+  Definition observe_spectrum {O : Type} (obs : buffer -> buffer -> O) (h : heap) (s : spectrum) : O :=
+    obs (read h (s_data s)) (read h (s_mask s)).
 End Heap.
 
 Arguments read {V} h p.
@@ -86,3 +114,14 @@ Arguments logical {V} d h v.
 Arguments integ_copy_view {V} d kern h v.
 Arguments integ_inplace_view {V} kern h v.
 Arguments save_mutate_restore {V} {R} mutate observe h p.
+Arguments arith_copy {V} op h s.
+Arguments arith_nocopy {V} op h s.
+Arguments arith {V} op pr h s.
+Arguments observe_spectrum {V} {O} obs h s.
+
+(** the observable of the witnesses: sum of the data entries whose mask entry is 0 (fs.sum() of a masked array) *)
+Fixpoint msum (data mask : list nat) : nat :=
+  match data, mask with
+  | x :: dt, m :: mt => (if Nat.eqb m 0 then x else 0) + msum dt mt
+  | _, _ => 0
+  end.
